@@ -11,19 +11,22 @@ META = {
         "QVerif.Solver.exactly_max_when_only_limit",
         "QVerif.Solver.raises_if_nothing_evaluated",
         "QVerif.Solver.runLoop_spec",
+        "QVerif.Solver.no_start_after_limit_with_faults",
+        "QVerif.Solver.fault_stops_run",
     ],
     "level": "proof",
     "level_text": "Proof over a state-machine model of _solve_by_evolution in which every operator application is an arbitrary list of callback events chosen by a "
     "script (so every operator behaviour, every estimate and every criterion answer sequence is covered): no operator is started with the flag set, with reported "
     "evaluations (plus its own estimate) at or above the budget, or with max_generations reached (no_start_after_limit, started_chain); generations never exceed the "
     "maximum and equal it when it is the only limit, for operators reporting at most one evaluation per application (gens_le_max, exactly_max_when_only_limit); a result "
-    "is only returned when at least one population was evaluated (raises_if_nothing_evaluated). Tied to the code by driving the real _solve_by_evolution with scripted "
+    "is only returned when at least one population was evaluated (raises_if_nothing_evaluated); the limits also hold in runs in which an operator application fails "
+    "after it has reported evaluations/results — the failure ends the run and nothing is started past a limit (no_start_after_limit_with_faults, fault_stops_run). Tied to the code by driving the real _solve_by_evolution with scripted "
     "operators/criteria and comparing started-operator sequence, ledger totals and generations at each start, outcome and result with the model.",
     "level_note": "Trusted: Lean kernel + standard axioms; the flattening of `while not terminate: for op in operators` into one per-operator check sequence and the "
     "callback bodies are hand-modelled and validated by the correspondence. An empty operator list (infinite loop in the code) is outside the model. The EVQE operators' "
     "own behaviour (<= 1 result per application) is C10's model.",
     "rule": "cases = random scripts of 3-14 applications (empty / count-only / count+result / result without count / two results per application; estimates None/0/2/5), "
-    "1-3 operators per cycle, limits max_generations in {None,0,1,2,3,5}, max_circuit_evaluations in {None,0,3,8,15,-1}, criterion answers random; the oracle recomputes "
+    "1-3 operators per cycle, limits max_generations in {None,0,1,2,3,5}, max_circuit_evaluations in {None,0,3,8,15,-1}, criterion answers random; 30 % of the scripts let one application raise after its events (transient fault); the oracle recomputes "
     "every clause from the recorded apply_operator calls (ledger total and generations before each start). non-trivial = at least two operators were started; "
     "distinct = (configuration, script)",
     "trusted_base": ["Lean 4 kernel; axioms per theorem under coverage.theorems", "harness/corr_C12.py, solver_corr.py, fakes.py, Driver/Solver.lean"],
